@@ -108,7 +108,7 @@ def chirp_case(draw):
     spec = draw(dd_spec(nmin=1, nmax=96))
     dmv, sel = draw(dm_and_ref(spec))
     return {"sig": spec, "dm": dmv, "ref": sel, "dt_unit": draw(st.sampled_from(["s", "us", "ns", "ms"])),
-            "f_unit": draw(st.sampled_from(["Hz", "MHz", "GHz", "kHz"]))}
+            "f_unit": draw(st.sampled_from(["Hz", "MHz", "GHz", "kHz"])), "dm_unit": draw(st.sampled_from(["none", "none", "pc / cm3", "kpc / cm3", "pc / m3"]))}
 
 
 def run_chirp(case, stt):
@@ -121,6 +121,11 @@ def run_chirp(case, stt):
     fr = ref_of(spec, case["ref"]) or cf
     dm = F(case["dm"])
     D = pb.DM(case["dm"])
+    if case.get("dm_unit", "none") != "none":
+        # the same dispersion measure spelled in an equivalent unit
+        sc = {"pc / cm3": F(1), "kpc / cm3": F(1000), "pc / m3": F(1, 10**6)}[case["dm_unit"]]
+        val = float(dm / sc)
+        D, dm = pb.DM(val * u.Unit(case["dm_unit"])), F(val) * sc
     z = G.build(spec)
     labels = G.exact_labels(spec)
     # (a) chirp_function at the first channel label with explicit units
@@ -158,6 +163,7 @@ def run_chirp(case, stt):
     stt.label("ref_" + case["ref"])
     stt.label("phase>=1cycle" if worst >= 1 else "phase<1cycle")
     stt.label("dm_neg" if case["dm"] < 0 else "dm_pos")
+    stt.label("dm_unit_" + case.get("dm_unit", "none"))
 
 
 # -- 2. dedispersed data, crop, start time, supplied chirp ----------------------------------------------------
